@@ -28,6 +28,7 @@ use crate::codec::family::Family;
 use crate::common::NumStdDev;
 use crate::error::Error;
 use crate::hll::estimator::HipEstimator;
+use crate::hll::estimator::check_image_field;
 use crate::hll::get_slot;
 use crate::hll::get_value;
 use crate::hll::serialization::COMPACT_FLAG_MASK;
@@ -204,6 +205,9 @@ impl Array6 {
             .map_err(insufficient_data("hip_accum"))?;
         let kxq0 = cursor.read_f64_le().map_err(insufficient_data("kxq0"))?;
         let kxq1 = cursor.read_f64_le().map_err(insufficient_data("kxq1"))?;
+        check_image_field("hip_accum", hip_accum)?;
+        check_image_field("kxq0", kxq0)?;
+        check_image_field("kxq1", kxq1)?;
 
         // Read num_at_cur_min (for Array6, this is num_zeros since cur_min=0)
         // (redundant: recomputed from the registers below, so that it cannot disagree with them)
